@@ -20,36 +20,36 @@ claim('C06',
       'bounded exhaustive schedule enumeration + deviation-bounded scripted-environment exploration of the real loop',
       'DESIGN.md#c06')
 
-claim('C12 A structured family reaches 6 (7) buses: every set partition of the buses realised as islands (path or star inside each block) x all slack patterns.',
+claim('C12',
       'All sub-multigraphs of K_n (n<=4 quick, <=5 thorough; plus a parallel line and a jumper, i.e. all 2^L on/off '
       'patterns) x all enable patterns of three slack generators are fed to the real System.connectivity and compared '
       'with union-find components; every single-island-plus-isolated pattern goes through the real power flow and is '
       'compared with the reduced network; every bus subset (<=2 / <=3) is switched off through each public call and '
       'the set of devices that went off is compared with the attachment map; all pairs (triples) of line toggles in a '
-      'static simulation.',
+      'static simulation. A structured family reaches 6 (7) buses: every set partition of the buses realised as islands (path or star inside each block) x all slack patterns.',
       'Trusts the union-find reference and the hand-written attachment map of the 4-bus test system; Fortescue '
       'devices are not generated; switching a bus ON after setup is documented unsupported.',
       'exhaustive input-shape enumeration (all subgraphs x status patterns) against a union-find reference',
       'DESIGN.md#c12')
 
-claim('C19 Group and model find_idx by bus are enumerated for all query tuples of length <= 3 over buses (1, 2, 3, missing) x allow_all x allow_none on three groups whose models share buses.',
+claim('C19',
       'Every System.add history of depth <=3 (<=4) over two models of one group x an index alphabet with duplicates, '
       'numeric/string twins, auto-index look-alikes and NaN is executed on a real System; after each add and after '
       'setup the group/model registries and every lookup (idx2model, idx2uid, get, find_idx model/group, allow_none, '
       'allow_all, two-key) are compared with a dict-based registry; all assignments of <=3 referrers for the BackRef '
-      'users; each reference kind once dangling; all busf assignments for the DeviceFinder user.',
+      'users; each reference kind once dangling; all busf assignments for the DeviceFinder user. Group and model find_idx by bus are enumerated for all query tuples of length <= 3 over buses (1, 2, 3, missing) x allow_all x allow_none on three groups whose models share buses.',
       'Trusts the dict reference; only StaticGen is used for add-histories (the registry code is group-independent); '
       'DeviceFinder is exercised through FLoad -> BusFreq.',
       'explicit-state exploration of add-histories and reference patterns against a dict-based registry model',
       'DESIGN.md#c19')
 
-claim('C20 Histories also set every field by plain attribute assignment before save_config; three value sets per field including signed integers and negative floats; an integer given as text must be an integer in effect.',
+claim('C20',
       'At the real option-merging seam (System._update_config_object + Config + routine constructors) every assignment '
       'of file value / option value in {absent, legal, illegal} to <=2 (<=3) fields of two sections x rc-file presence '
       '(none, all sections, only used sections, other sections) plus malformed strings is executed and compared with a '
       'precedence dict; real System objects get every one of the ~400 fields through each channel in turn, with '
       'save -> load round trip of value and type, dict channel, run-time update; the step actually taken equals '
-      'TDS.tstep per channel.',
+      'TDS.tstep per channel. Histories also set every field by plain attribute assignment before save_config; three value sets per field including signed integers and negative floats; an integer given as text must be an integer in effect.',
       'Trusts the reference coercion rule (int, else float, else text); numba/dime/seed fields excluded from all-field '
       'runs; dict-vs-option conflicts unspecified and not explored.',
       'exhaustive channel/value-class enumeration at the configuration seam against a precedence-dict reference',
@@ -97,14 +97,14 @@ claim('C08',
       'exhaustive enumeration of zero-T patterns x state permutations against a generalised-eigenvalue reference',
       'DESIGN.md#c08')
 
-claim('C16 The routine product includes ieee14 with an islanded load bus (island post-processing of residuals and matrices in both accumulation modes); every linsolve with a column right-hand side must leave the solution in that right-hand side.',
+claim('C16',
       'One Solver instance per back-end (klu, umfpack, spsolve): every sequence of <=3 (4) operations from {solve, linsolve '
       '(5 matrices: regular, same pattern new values, other pattern, other size, singular), linsolve with a matrix '
       'right-hand side, set factorize, set new_A, clear} is executed and every call the property names is checked with a '
       'dense residual (A x = b to 1e-9, singular input never yields a finite x); native crashes and hangs are caught by '
       'the runner. Routine level: three systems x back-end x linsolve x ipadd (x Newton variant): power-flow solution, '
       'stored trajectory and eigenvalues equal the default configuration; bit-identical repetition in fresh processes '
-      'via sha1 digests of the raw results.',
+      'via sha1 digests of the raw results. The routine product includes ieee14 with an islanded load bus (island post-processing of residuals and matrices in both accumulation modes); every linsolve with a column right-hand side must leave the solution in that right-hand side.',
       'SciPy solve() without a pending refresh is documented to reuse its factorisation and is not judged; numba only in '
       'thorough; matrices are 3x3/4x4 (the wrapper logic is size-independent).',
       'explicit-state exploration of solver-call sequences + full configuration product against the default run',
@@ -171,14 +171,14 @@ claim('C02',
       'explicit-state exploration of the code-cache protocol',
       'DESIGN.md#c02')
 
-claim('C03 On the all-on systems the comparison is repeated after every continuous parameter read by a Jacobian function has been changed in place and the first device of every dynamic model switched off; islanded-bus rows take part in the comparison of the two accumulation modes.',
+claim('C03',
       'Symbolic level: every generated Jacobian element and iterative-init Jacobian of every model is compared on the '
       'lattice with a Richardson central difference of the independently evaluated equation string (never across a '
       'breakpoint), the matrix name must match row/column kinds, and every (equation, variable) pair absent from the '
       'triplet list must have zero derivative. Assembled level: 10 stock systems x status patterns (each of the first '
       'lines / loads / generators off, leaf-bus isolation, pairs in thorough) x ipadd x both addressing phases x 5 operating '
       'points: dae.fx/fy/gx/gy entry-wise against finite differences of the assembled residual, non-zeros inside the stored '
-      'pattern, pattern stable across updates, in-place = rebuilt accumulation.',
+      'pattern, pattern stable across updates, in-place = rebuilt accumulation. On the all-on systems the comparison is repeated after every continuous parameter read by a Jacobian function has been changed in place and the first device of every dynamic model switched off; islanded-bus rows take part in the comparison of the two accumulation modes.',
       'Rows of models with VarService / numeric hooks, anti-windup-pegged states and neutralised isolated-bus rows are not '
       'closed-form and are skipped; limiter kinks accept either one-sided derivative.',
       'exhaustive enumeration of models x Jacobian entries x lattice, and systems x status x operating points, against '
@@ -233,7 +233,7 @@ claim('C04',
       'deviation-bounded exploration of forced step rejections on the real integrator with a per-step residual oracle',
       'DESIGN.md#c04')
 
-claim('C05 A further part attaches every model with each option of each of its Switcher (mode / flag) parameters, IEEEST with every MODE x remote bus and ST2CUT with every MODE x MODE2 x local / remote signal buses.',
+claim('C05',
       'Every stand-alone stock case (93 files, enumerated from disk) is loaded, solved and dynamically initialised; the '
       'reported verdict must equal the harness recomputation of max|f, g| from a fresh residual evaluation (truthfulness, '
       'unconditional); when the independent precondition holds (every limiter inside, single-slack energised network, online '
@@ -242,13 +242,13 @@ claim('C05 A further part attaches every model with each option of each of its S
       'the ~55 generically attachable dynamic models (all exciters, governors, stabilisers, compensator, renewable generator '
       'and controller chain, distributed generators, dynamic loads, motors, measurement devices; exciter x governor pairs in '
       'thorough), on kundur_full with each dynamic device offline, on a static generator split between two machines, and on '
-      'two systems with all 25 combinations of the static-load conversion weights for P and Q.',
+      'two systems with all 25 combinations of the static-load conversion weights for P and Q. A further part attaches every model with each option of each of its Switcher (mode / flag) parameters, IEEEST with every MODE x remote bus and ST2CUT with every MODE x MODE2 x local / remote signal buses.',
       'Precondition decided by the harness from live limiter flags; attach uses default parameters; models needing '
       'companion files only through stock cases.',
       'exhaustive enumeration of stock cases and attachable models with a residual-recomputation oracle',
       'DESIGN.md#c05')
 
-claim('C14 All five views of the stored series (t, x, y, xy, txyz) must have the same number of rows and end with the final state after a resume, with the composite views looked at between segments.',
+claim('C14',
       'Reference = one uninterrupted run of a classical-machine system (fault + line trip), a static system (toggles + '
       'alteration) and kundur_full (line trip). Interruptions: every accepted-step boundary of the reference among the first '
       '12 steps, te - 1e-4 / te - 1e-5 / te -+ 1e-6 / te / te + 1e-4 for every event, off-grid times; all singles and all '
@@ -257,20 +257,20 @@ claim('C14 All five views of the stored series (t, x, y, xy, txyz) must have the
       'The event log must equal the reference log (none lost, repeated or shifted), the time axis must be strictly increasing '
       'with no gap beyond the step and contain every split time, the final state must agree (1e-9 at step boundaries, '
       'discretisation bound otherwise), variables must be views of the DAE arrays after load_ss; reset + power flow x3 must '
-      'reproduce the first solution and DAE sizes on 6 cases.',
+      'reproduce the first solution and DAE sizes on 6 cases. All five views of the stored series (t, x, y, xy, txyz) must have the same number of rows and end with the final state after a resume, with the composite views looked at between segments.',
       'Snapshot modes at the event lattice and every 4th boundary (dill costs 2 s); fresh-process continuation judged by '
       'trajectory, not by callback log.',
       'exhaustive enumeration of interruption points (crash-point style) x continuation modes against the uninterrupted run',
       'DESIGN.md#c14')
 
-claim('C15 In every configuration the in-memory plotter is loaded and five variables (states, bus algebraics, an external algebraic) are queried through it: the columns and values must be the simulated ones for the stored addresses.',
+claim('C15',
       'A recorder around the step routine copies (t, x, y, f) after every accepted step. For every configuration of a '
       'lattice (default + all single deviations + pairs over save_every {1,2,3,0}, limit_store, max_store {2,5,900}, store_f, '
       'store_z, output files on/off, 9 Output selections incl. overlapping and invalid rows, single vs resumed run) on SMIB '
       'and kundur_full: the in-memory series, the npz + lst files (independent reader and TDSData), export_csv and the csv '
       'replay must hold exactly the recorder rows the thinning rule selects, bit-identical (1 ulp for the replay, whose csv '
       'reader is not correctly rounded), with labels naming the address held; chunked off-loading must concatenate to the '
-      'same rows; queries by variable, device subset and name pattern must return the right columns.',
+      'same rows; queries by variable, device subset and name pattern must return the right columns. In every configuration the in-memory plotter is loaded and five variables (states, bus algebraics, an external algebraic) are queried through it: the columns and values must be the simulated ones for the stored addresses.',
       'Output-related options are supplied at load time (flag names are allocated at set-up); z columns are not compared.',
       'bounded exhaustive enumeration of output configurations against a step-level recorder',
       'DESIGN.md#c15')
